@@ -236,65 +236,56 @@ pub fn run_property(p: &dyn Prop, tier: Tier, seed: u64) -> RunResult {
             .and_then(|s| s.parse().ok())
             .unwrap_or(tier.pick(120, 900)),
     );
-    let hang: std::sync::Arc<Mutex<Option<usize>>> = std::sync::Arc::new(Mutex::new(None));
-    {
-        let watch = watch.clone();
-        let hang = hang.clone();
-        std::thread::spawn(move || {
-            while !watch.done.load(Ordering::Relaxed) {
+    let results: Vec<Option<Outcome>> = std::thread::scope(|scope| {
+        let watch2 = watch.clone();
+        let cases_ref = &cases;
+        scope.spawn(move || {
+            while !watch2.done.load(Ordering::Relaxed) {
                 std::thread::sleep(Duration::from_millis(500));
-                let s = watch.slots.lock().unwrap();
-                for (_, (st, idx)) in s.iter() {
-                    if st.elapsed() > case_timeout {
-                        *hang.lock().unwrap() = Some(*idx);
-                    }
-                }
-                if hang.lock().unwrap().is_some() {
-                    break;
+                let hung: Option<usize> = {
+                    let s = watch2.slots.lock().unwrap();
+                    s.iter().find(|(_, (st, _))| st.elapsed() > case_timeout).map(|(_, (_, idx))| *idx)
+                };
+                if let Some(idx) = hung {
+                    // a hang is a violation: the step did not return a value or an error.
+                    // The stuck worker cannot be cancelled, so the process ends here.
+                    let dir = out_dir().join("replays").join(id);
+                    let _ = std::fs::create_dir_all(&dir);
+                    let path = dir.join(format!("hang_case_{idx}.json"));
+                    let _ = std::fs::write(
+                        &path,
+                        serde_json::to_string_pretty(&json!({"property": id, "key": format!("{id}/hang"), "case": cases_ref[idx],
+                            "what": format!("case did not finish within {}s", case_timeout.as_secs())}))
+                        .unwrap(),
+                    );
+                    write_evidence_min(p, tier, seed, t0, 1, "a case hung; run aborted");
+                    println!("VIOLATION property={id} replay={}", path.display());
+                    std::process::exit(1);
                 }
             }
         });
-    }
-
-    let results: Vec<Option<Outcome>> = cases
-        .par_iter()
-        .enumerate()
-        .map(|(i, c)| {
-            if capped.load(Ordering::Relaxed) {
-                return None;
-            }
-            if t0.elapsed() > wall_cap {
-                capped.store(true, Ordering::Relaxed);
-                return None;
-            }
-            if hang.lock().unwrap().is_some() {
-                return None;
-            }
-            let tid = rayon::current_thread_index().unwrap_or(0);
-            watch.slots.lock().unwrap().insert(tid, (Instant::now(), i));
-            let o = run_case_caught(p, c);
-            watch.slots.lock().unwrap().remove(&tid);
-            executed.fetch_add(1, Ordering::Relaxed);
-            Some(o)
-        })
-        .collect();
-    watch.done.store(true, Ordering::Relaxed);
-
-    if let Some(idx) = *hang.lock().unwrap() {
-        // a hang is a violation: the step did not return a value or an error
-        let dir = out_dir().join("replays").join(id);
-        let _ = std::fs::create_dir_all(&dir);
-        let path = dir.join(format!("hang_case_{idx}.json"));
-        let _ = std::fs::write(
-            &path,
-            serde_json::to_string_pretty(&json!({"property": id, "key": format!("{id}/hang"), "case": cases[idx],
-                "what": format!("case did not finish within {}s", case_timeout.as_secs())}))
-            .unwrap(),
-        );
-        write_evidence_min(p, tier, seed, t0, 1, "a case hung; run aborted");
-        println!("VIOLATION property={id} replay={}", path.display());
-        std::process::exit(1);
-    }
+        let r: Vec<Option<Outcome>> = cases
+            .par_iter()
+            .enumerate()
+            .map(|(i, c)| {
+                if capped.load(Ordering::Relaxed) {
+                    return None;
+                }
+                if t0.elapsed() > wall_cap {
+                    capped.store(true, Ordering::Relaxed);
+                    return None;
+                }
+                let tid = rayon::current_thread_index().unwrap_or(0);
+                watch.slots.lock().unwrap().insert(tid, (Instant::now(), i));
+                let o = run_case_caught(p, c);
+                watch.slots.lock().unwrap().remove(&tid);
+                executed.fetch_add(1, Ordering::Relaxed);
+                Some(o)
+            })
+            .collect();
+        watch.done.store(true, Ordering::Relaxed);
+        r
+    });
 
     // accumulate
     let mut evals = 0u64;
